@@ -9,7 +9,14 @@ package main
 
 import (
 	"bufio"
+	"bytes"
+	"crypto/ecdsa"
+	"crypto/elliptic"
+	crand "crypto/rand"
 	"crypto/tls"
+	"crypto/x509"
+	"crypto/x509/pkix"
+	"math/big"
 	"fmt"
 	"math/rand"
 	"net"
@@ -141,7 +148,9 @@ func randCase(r *rand.Rand, k string) string {
 var ips = []string{"1.2.3.4", "10.0.0.7", "203.0.113.9", "2001:db8::1", "127.0.0.1", "6.6.6.6", "unknown", "192.168.0.1, 10.1.1.1"}
 var remotes = []string{"1.2.3.4:5555", "10.0.0.7:80", "[2001:db8::1]:443", "203.0.113.9:61000", "127.0.0.1:1", "6.6.6.6:6"}
 var badRemotes = []string{"1.2.3.4", "", "[::1", "1.2.3.4:5:6", "::1:80"}
-var hosts = []string{"example.com", "example.com:8080", "www.foo.org:443", "a:1", "a:", ":80", "", "foo", "[::1]:8443", "[2001:db8::2]", "Example.COM:80", "h:80:90", "bar.example:0"}
+var hosts = []string{"example.com", "example.com:8080", "www.foo.org:443", "a:1", "a:", ":80", "", "foo", "[::1]:8443", "[2001:db8::2]", "Example.COM:80", "h:80:90", "bar.example:0",
+	// IPv6 literals with / without port, with zone; several colons without brackets; stray brackets
+	"[2001:db8::2]:443", "[fe80::1%eth0]:8080", "[fe80::1%25eth0]", "::1", "2001:db8::2", "a:b:c", "[::1]:", "[::1", "::1]:80", "[a]b:1", "x[y]:1", "[]:80", "[::1]:80:90", "[::1]]:80", "host:", "1.2.3.4:0080"}
 var clientIPHeaders = []string{"", "", "X-Client-Ip", "x-client-ip", "X-CLIENT-IP", "Client-Ip", "X-Forwarded-For", "x-forwarded-for", "X-FORWARDED-FOR", "X-Real-Ip", "x-real-ip", "X-Real-IP", "True-Client-Ip", "cf-connecting-ip"}
 var tlsHeaders = []string{"", "", "X-Tls", "x-tls", "X-Forwarded-Ssl", "Secure", "X-SSL"}
 var tlsValues = []string{"true", "on", "1", "", "https"}
@@ -357,6 +366,7 @@ type recordingTransport struct {
 	mu   sync.Mutex
 	got  []http.Header
 	host []string // req.Host as handed to the transport
+	sts  []string // Strict-Transport-Security values the "upstream" puts on its own response
 }
 
 func (t *recordingTransport) RoundTrip(req *http.Request) (*http.Response, error) {
@@ -373,8 +383,12 @@ func (t *recordingTransport) RoundTrip(req *http.Request) (*http.Response, error
 	t.got = append(t.got, cp)
 	t.host = append(t.host, req.Host)
 	t.mu.Unlock()
+	rh := http.Header{"Content-Type": {"text/plain"}}
+	if len(t.sts) > 0 {
+		rh["Strict-Transport-Security"] = append([]string(nil), t.sts...)
+	}
 	return &http.Response{StatusCode: 200, Status: "200 OK", Proto: "HTTP/1.1", ProtoMajor: 1, ProtoMinor: 1,
-		Header: http.Header{"Content-Type": {"text/plain"}}, Body: http.NoBody, Request: req}, nil
+		Header: rh, Body: http.NoBody, Request: req}, nil
 }
 
 // loopback upstream for the websocket handler (it dials with net.Dial itself)
@@ -449,6 +463,7 @@ type targetT struct {
 	URLHost    string // what the real code dials / puts into the url
 	CoqURLHost string // what the case says (the loopback port of the websocket upstream is run-dependent; the model reads t_url_host only for host=dst, which websocket cases never use)
 	Strip      string
+	UpSTS      []string // Strict-Transport-Security values of the upstream's own response (plain path only)
 }
 
 func coqTarget(t *targetT) string {
@@ -460,7 +475,7 @@ const theUUID = "11111111-2222-3333-4444-555555555555"
 // implServe runs the real HTTPProxy.ServeHTTP.  up = header map at the upstream,
 // nil when the upstream was not contacted.
 func implServe(q *reqT, cfg config.Proxy, t *targetT, ws *wsUpstream) (coq string, up http.Header, sts []string, code int, uhost string) {
-	tr := &recordingTransport{}
+	tr := &recordingTransport{sts: t.UpSTS}
 	tgt := &route.Target{URL: &url.URL{Scheme: "http", Host: t.URLHost}, Host: t.HostOpt, StripPath: t.Strip}
 	p := &proxy.HTTPProxy{Config: cfg, Transport: tr, UUID: func() string { return theUUID },
 		Lookup: func(*http.Request) *route.Target { return tgt }}
@@ -496,6 +511,164 @@ func implServe(q *reqT, cfg config.Proxy, t *targetT, ws *wsUpstream) (coq strin
 		return vh.Err(0), nil, sts, code, ""
 	}
 	return vh.Ok(vh.Pair(coqHdr(up), coqStrList(sts))), up, sts, code, uhost
+}
+
+
+// ---------- real connections: net/http server (plain and TLS listener on loopback) in front of
+// HTTPProxy, driven by a raw-bytes client.  r.TLS, r.RemoteAddr, r.Host, r.Proto and the
+// canonicalisation / merging of header lines come from net/http, not from the harness. ----------
+type realFront struct {
+	ln    net.Listener
+	isTLS bool
+	mu    sync.Mutex
+	h     http.Handler
+}
+
+func selfSigned() tls.Certificate {
+	key, err := ecdsa.GenerateKey(elliptic.P256(), crand.Reader)
+	if err != nil {
+		panic(err)
+	}
+	tmpl := &x509.Certificate{SerialNumber: big.NewInt(1), Subject: pkix.Name{CommonName: "c08.test"},
+		NotBefore: time.Now().Add(-time.Hour), NotAfter: time.Now().Add(24 * time.Hour),
+		KeyUsage: x509.KeyUsageDigitalSignature, ExtKeyUsage: []x509.ExtKeyUsage{x509.ExtKeyUsageServerAuth}, DNSNames: []string{"c08.test"}}
+	der, err := x509.CreateCertificate(crand.Reader, tmpl, tmpl, &key.PublicKey, key)
+	if err != nil {
+		panic(err)
+	}
+	return tls.Certificate{Certificate: [][]byte{der}, PrivateKey: key}
+}
+
+func newRealFront(isTLS bool) *realFront {
+	ln, err := net.Listen("tcp", "127.0.0.1:0")
+	if err != nil {
+		panic(err)
+	}
+	f := &realFront{isTLS: isTLS}
+	if isTLS {
+		ln = tls.NewListener(ln, &tls.Config{Certificates: []tls.Certificate{selfSigned()}, NextProtos: []string{"http/1.1"}})
+	}
+	f.ln = ln
+	srv := &http.Server{Handler: http.HandlerFunc(func(w http.ResponseWriter, r *http.Request) {
+		f.mu.Lock()
+		h := f.h
+		f.mu.Unlock()
+		h.ServeHTTP(w, r)
+	}), ReadHeaderTimeout: 5 * time.Second}
+	go srv.Serve(ln)
+	return f
+}
+
+type realResult struct {
+	seen    *reqT // the request as net/http handed it to fabio; nil: the server answered itself (400 ...)
+	coq     string
+	up      http.Header
+	sts     []string
+	code    int
+	uhost   string
+	panicked bool
+}
+
+// realServe sends raw over a fresh connection to the front and lets the real HTTPProxy serve it.
+func realServe(f *realFront, raw []byte, tlsMax uint16, cfg config.Proxy, t *targetT, ws *wsUpstream) realResult {
+	var res realResult
+	tr := &recordingTransport{sts: t.UpSTS}
+	tgt := &route.Target{URL: &url.URL{Scheme: "http", Host: t.URLHost}, Host: t.HostOpt, StripPath: t.Strip}
+	p := &proxy.HTTPProxy{Config: cfg, Transport: tr, UUID: func() string { return theUUID },
+		Lookup: func(*http.Request) *route.Target { return tgt }}
+	done := make(chan struct{})
+	f.mu.Lock()
+	f.h = http.HandlerFunc(func(w http.ResponseWriter, r *http.Request) {
+		defer close(done)
+		q := &reqT{RemoteAddr: r.RemoteAddr, Host: r.Host, Proto: r.Proto, Hdr: r.Header.Clone()}
+		if q.Hdr == nil {
+			q.Hdr = http.Header{}
+		}
+		if r.TLS != nil {
+			q.TLS = &tlsT{Version: r.TLS.Version, Cipher: r.TLS.CipherSuite}
+		}
+		res.seen = q
+		if pn, _ := vh.Recover(func() { p.ServeHTTP(w, r) }); pn {
+			res.panicked = true
+		}
+	})
+	f.mu.Unlock()
+	for len(ws.got) > 0 {
+		<-ws.got
+	}
+	var c net.Conn
+	var err error
+	if f.isTLS {
+		c, err = tls.Dial("tcp", f.ln.Addr().String(), &tls.Config{InsecureSkipVerify: true, MinVersion: tls.VersionTLS12, MaxVersion: tlsMax,
+			CipherSuites: []uint16{tls.TLS_ECDHE_ECDSA_WITH_AES_128_GCM_SHA256}})
+	} else {
+		c, err = net.Dial("tcp", f.ln.Addr().String())
+	}
+	if err != nil {
+		panic(err)
+	}
+	defer c.Close()
+	c.SetDeadline(time.Now().Add(5 * time.Second))
+	if _, err := c.Write(raw); err != nil {
+		return res
+	}
+	resp, err := http.ReadResponse(bufio.NewReader(c), nil)
+	if err == nil {
+		res.code = resp.StatusCode
+		res.sts = resp.Header["Strict-Transport-Security"]
+	}
+	c.Close()
+	select {
+	case <-done:
+	case <-time.After(3 * time.Second):
+		if res.seen != nil {
+			panic("handler did not finish")
+		}
+		return res // the server answered itself
+	}
+	if res.panicked {
+		res.coq = vh.Panic
+		return res
+	}
+	tr.mu.Lock()
+	if len(tr.got) > 0 {
+		res.up, res.uhost = tr.got[0], tr.host[0]
+	}
+	tr.mu.Unlock()
+	if res.up == nil {
+		select {
+		case o := <-ws.got:
+			if o != nil {
+				res.up, res.uhost = o.hdr, o.host
+				if res.uhost == t.URLHost {
+					res.uhost = t.CoqURLHost
+				}
+			}
+		default:
+		}
+	}
+	if res.up == nil {
+		res.coq = vh.Err(0)
+		return res
+	}
+	res.coq = vh.Ok(vh.Pair(coqHdr(res.up), coqStrList(res.sts)))
+	return res
+}
+
+// rawRequest renders a request the way a client may write it: header names in random case,
+// repeated lines, optional blanks around values.
+func rawRequest(r *rand.Rand, proto string, host *string, lines [][2]string) []byte {
+	var b bytes.Buffer
+	b.WriteString("GET /foo/bar?x=1 " + proto + "\r\n")
+	if host != nil {
+		b.WriteString(randCase(r, "Host") + ": " + *host + "\r\n")
+	}
+	for _, l := range lines {
+		sep := pick(r, []string{": ", ":", ":  ", ": \t"})
+		b.WriteString(randCase(r, l[0]) + sep + l[1] + pick(r, []string{"", "", " "}) + "\r\n")
+	}
+	b.WriteString("\r\n")
+	return b.Bytes()
 }
 
 func project(h http.Header, cfg *config.Proxy) map[string][]string {
@@ -563,6 +736,29 @@ func main() {
 	}
 	portHosts := append([]string{}, hosts...)
 	portHosts = append(portHosts, "x:", ":", "::", "a:b:c", "host:65535", "0:0")
+	// random Host values over the alphabet that matters to host:port syntax
+	for i := 0; i < run.Scale(120, 1500); i++ {
+		n := r.Intn(10)
+		b := make([]byte, n)
+		al := "a1:[]%.:]:[-"
+		for j := range b {
+			b[j] = al[r.Intn(len(al))]
+		}
+		h := string(b)
+		if r.Intn(3) == 0 {
+			h = "[" + h + "]" + pick(r, []string{"", ":80", ":", ":8443", ":a:b"})
+		}
+		portHosts = append(portHosts, h)
+	}
+	// net.SplitHostPort itself against the model of it
+	for _, h := range append(append([]string{}, portHosts...), append(remotes, badRemotes...)...) {
+		host, port, err := net.SplitHostPort(h)
+		impl := vh.None
+		if err == nil {
+			impl = vh.Some(vh.Pair(s(host), s(port)))
+		}
+		run.Add("split-host-port", vh.App("CSplit", s(h), impl), map[string]interface{}{"fn": "net.SplitHostPort", "hostport": h, "host": host, "port": port, "err": err != nil})
+	}
 	for _, h := range portHosts {
 		for _, t := range []bool{false, true} {
 			q := &reqT{RemoteAddr: "1.2.3.4:5", Host: h, Hdr: http.Header{}}
@@ -689,20 +885,23 @@ func main() {
 		if impl == vh.Panic {
 			run.Violation(run.NextID(), "ServeHTTP panicked", project(q.Hdr, &cfg))
 		}
-		run.Add(class, vh.App("CServe", coqCfg(&cfg), coqTarget(t), s(theUUID), coqReq(q), impl, s(uhost)),
+		run.Add(class, vh.App("CServe", coqCfg(&cfg), coqTarget(t), s(theUUID), coqReq(q), impl, s(uhost), coqStrList(t.UpSTS), "false"),
 			map[string]interface{}{"fn": "HTTPProxy.ServeHTTP", "cfg": cfgSample(&cfg), "remote": q.RemoteAddr, "host": q.Host, "tls": q.TLS, "host_opt": t.HostOpt, "strip": t.Strip,
-				"client": project(q.Hdr, &cfg), "upstream": project(up, &cfg), "upstream_host": uhost, "sts": sts, "status": code})
+				"client": project(q.Hdr, &cfg), "upstream": project(up, &cfg), "upstream_host": uhost, "sts": sts, "upstream_sts": t.UpSTS, "status": code})
 	}
 	genTarget := func(mode int) *targetT {
 		t := &targetT{URLHost: "upstream.internal:9000", CoqURLHost: "upstream.internal:9000", Strip: pick(r, []string{"", "", "", "/foo"})}
 		if mode == modeWS || mode == modeWSS {
 			t.URLHost, t.CoqURLHost = ws.ln.Addr().String(), "loopback-upstream"
+		} else if r.Intn(5) == 0 {
+			// the upstream's own response carries Strict-Transport-Security (passed through, not fabio's)
+			t.UpSTS = [][]string{{"max-age=99"}, {"max-age=1; preload", "max-age=2"}}[r.Intn(2)]
 		}
 		switch r.Intn(6) {
 		case 0:
-			if mode == modePlain || mode == modeTLS { // the loopback port is not reproducible: dst only with the stub transport
-				t.HostOpt = "dst"
-			}
+			// host=dst on websocket too: since 7dd13e1 the rewritten Host no longer reaches a managed header,
+			// and the run-dependent loopback address is mapped to CoqURLHost where the upstream Host is observed
+			t.HostOpt = "dst"
 		case 1:
 			t.HostOpt = pick(r, []string{"backend.internal", "backend.internal:8500", "other:1"})
 		case 2:
@@ -753,9 +952,6 @@ func main() {
 		q.Hdr.Del("X-Forwarded-Port")
 		t := genTarget(mode)
 		t.HostOpt = pick(r, []string{"backend.internal", "backend.internal:8500", "dst"})
-		if t.HostOpt == "dst" && mode >= modeWS {
-			t.HostOpt = "backend.internal:8500"
-		}
 		serveCase("serve-host-option", cfg, q, t)
 	}
 	// live class: the client names managed headers in Connection (F-C08-4, repaired by 216337c:
@@ -834,6 +1030,75 @@ func main() {
 		q.RemoteAddr = ra
 		serveCase("serve-bad-remoteaddr", cfg, q, genTarget(mode))
 	}
+	// live class (OPEN findings F-C08-6 / F-C08-7): the client sends ONLY Forwarded, or ONLY
+	// X-Forwarded-Proto, on plain and on TLS connections, with values that agree / disagree with the
+	// connection, with and without a proto= item
+	for i := 0; i < run.Scale(96, 800); i++ {
+		cfg := genCfg(r)
+		mode := i % 4
+		q := genReq(r, &cfg, mode, 10)
+		q.Hdr.Del("Forwarded")
+		q.Hdr.Del("X-Forwarded-Proto")
+		class := "forwarded-only"
+		if (i/4)%2 == 0 {
+			q.Hdr.Add(randCase(r, "Forwarded"), pick(r, []string{"for=9.9.9.9; proto=https", "for=9.9.9.9;proto=http", "proto=wss", "proto=ws;by=x", "for=9.9.9.9", "by=1.1.1.1;for=x", "proto=", "PROTO=https", "for=a;xproto=https", "proto=ftp; for=b"}))
+		} else {
+			class = "xfp-only"
+			q.Hdr.Add(randCase(r, "X-Forwarded-Proto"), pick(r, []string{"https", "http", "ws", "wss", "ftp", "HTTPS"}))
+		}
+		serveCase("serve-"+class, cfg, q, genTarget(mode))
+		addCase("add-"+class, cfg, q, "")
+	}
+
+	// real connections: net/http server on a loopback listener (plain, TLS 1.2 / 1.3) in front of the
+	// real HTTPProxy, raw-bytes client: duplicated and differently-cased header lines, IPv6 Host values,
+	// HTTP/1.0 without Host, websocket upgrades, upstream responses with their own STS
+	plainFront, tlsFront := newRealFront(false), newRealFront(true)
+	defer plainFront.ln.Close()
+	defer tlsFront.ln.Close()
+	realHosts := []string{"example.com", "example.com:8080", "[::1]:8443", "[2001:db8::2]", "[fe80::1%25eth0]:443", "a:b:c", "host:", ":80", "Example.COM", "1.2.3.4:0080"}
+	for i := 0; i < run.Scale(160, 1500); i++ {
+		cfg := genCfg(r)
+		mode := []int{modePlain, modeTLS, modePlain, modeTLS, modeWS, modeWSS}[i%6]
+		front, tlsMax := plainFront, uint16(0)
+		if mode == modeTLS || mode == modeWSS {
+			front, tlsMax = tlsFront, []uint16{tls.VersionTLS12, tls.VersionTLS13}[(i/6)%2]
+		}
+		gen := genHdr(r, &cfg, mode, []int{30, 60, 90}[r.Intn(3)])
+		var lines [][2]string
+		keys := make([]string, 0, len(gen))
+		for k := range gen {
+			keys = append(keys, k)
+		}
+		sort.Strings(keys)
+		for _, k := range keys {
+			for _, v := range gen[k] {
+				if k == "Upgrade" && mode < modeWS && strings.EqualFold(strings.TrimSpace(v), "websocket") && len(strings.TrimSpace(v)) == 9 && (strings.TrimSpace(v) == "websocket" || strings.TrimSpace(v) == "Websocket") {
+					v = "h2c" // the server trims blanks: "websocket " would take the websocket path, whose upstream only exists in ws modes
+				}
+				lines = append(lines, [2]string{k, v})
+			}
+		}
+		r.Shuffle(len(lines), func(a, b int) { lines[a], lines[b] = lines[b], lines[a] })
+		host := pick(r, realHosts)
+		proto, hp := "HTTP/1.1", &host
+		if i%17 == 0 && mode < modeWS {
+			proto, hp = "HTTP/1.0", nil // no Host line at all: r.Host == ""
+		}
+		t := genTarget(mode)
+		res := realServe(front, rawRequest(r, proto, hp, lines), tlsMax, cfg, t, ws)
+		if res.seen == nil {
+			run.Exclude(fmt.Sprintf("net/http server answered %d itself", res.code))
+			continue
+		}
+		if res.panicked {
+			run.Violation(run.NextID(), "ServeHTTP panicked (real connection)", project(res.seen.Hdr, &cfg))
+		}
+		run.Add("real-"+modeNames[mode], vh.App("CServe", coqCfg(&cfg), coqTarget(t), s(theUUID), coqReq(res.seen), res.coq, s(res.uhost), coqStrList(t.UpSTS), "true"),
+			map[string]interface{}{"fn": "http.Server -> HTTPProxy.ServeHTTP", "cfg": cfgSample(&cfg), "remote_host_part": func() string { h, _ := peerOf(res.seen.RemoteAddr); return h }(), "host": res.seen.Host, "tls": res.seen.TLS, "proto": res.seen.Proto, "host_opt": t.HostOpt,
+				"client": project(res.seen.Hdr, &cfg), "upstream": project(res.up, &cfg), "upstream_host": res.uhost, "sts": res.sts, "upstream_sts": t.UpSTS, "status": res.code})
+	}
 	run.Notes["websocket_upstream"] = "loopback listener, one connection per websocket case"
+	run.Notes["real_connections"] = "net/http server on loopback (plain and TLS), raw-bytes client; r.TLS / RemoteAddr / Host / header canonicalisation from net/http"
 	run.Finish(preamble, run.Scale(140, 600))
 }
